@@ -515,7 +515,10 @@ class io_uring_context::read_sender {
         return;
       }
       self.stopCallback_.destruct();
-      if (get_stop_token(self.receiver_).stop_requested()) {
+      // A transfer that has already happened is reported as such even if stop
+      // was requested meanwhile; otherwise the bytes would be silently lost.
+      if (self.result_ < 0 &&
+          get_stop_token(self.receiver_).stop_requested()) {
         unifex::set_done(std::move(self.receiver_));
       } else if (self.result_ >= 0) {
         if constexpr (noexcept(unifex::set_value(
@@ -713,7 +716,10 @@ class io_uring_context::write_sender {
         return;
       }
       self.stopCallback_.destruct();
-      if (get_stop_token(self.receiver_).stop_requested()) {
+      // A transfer that has already happened is reported as such even if stop
+      // was requested meanwhile; otherwise the bytes would be silently lost.
+      if (self.result_ < 0 &&
+          get_stop_token(self.receiver_).stop_requested()) {
         unifex::set_done(std::move(self.receiver_));
       } else if (self.result_ >= 0) {
         if constexpr (noexcept(unifex::set_value(
